@@ -390,6 +390,28 @@ def generate(seed, tier):
             names.append(nm)
             members.append(nm)
         fam_info.append(members)
+    # a deep family: the only trees on which the interpreter stack can run out mid-hash
+    deep_names = []
+    if r.random() < 0.25:
+        depth = r.randint(25, 90)
+        t = ["n", "Variable", [["s", "x"]]]
+        for lvl in range(depth):
+            k = r.choice(["Sum", "Product", "Power", "CommonSubexpression", "Quotient"])
+            if k in ("Sum", "Product"):
+                t = ["n", k, [["t", [t, ["i", lvl % 5]]]]]
+            elif k in ("Power", "Quotient"):
+                t = ["n", k, [t, ["i", 2 + lvl % 3]]]
+            else:
+                t = ["n", k, [t, ["none"], ["s", "pymbolic_eval"]]]
+        bname = f"o{len(names)}"
+        ops.append(["def", bname, t])
+        names.append(bname)
+        deep_names.append(bname)
+        twin = f"o{len(names)}"
+        ops.append(["def", twin, ["fresh", bname]])
+        names.append(twin)
+        deep_names.append(twin)
+        fam_info.append([bname, twin])
     # the -1/-2 family (CPython: hash(-1) == hash(-2))
     if r.random() < 0.3:
         for v in (-1, -2):
@@ -437,6 +459,12 @@ def generate(seed, tier):
             op = gen_op()
             if r.random() < 0.12 and op[0] in ("hash", "eq", "lookup", "pickle", "deepcopy"):
                 op = ["async", r.randint(1, 60), op]
+            elif deep_names and r.random() < 0.3:
+                # the interpreter stack runs out in the middle of hashing / comparing
+                a = r.choice(deep_names)
+                inner = r.choice([["hash", a], ["eq", a, r.choice(deep_names)],
+                                  ["lookup", "dict", a, ["fresh", r.choice(deep_names)]]])
+                op = ["stack", r.randint(4, 200), inner]
             ops.append(op)
         ops.append(["sweep"])
         cfg = {"mode": "S", "user_classes": ucs, "optimized": optimized}
@@ -864,6 +892,25 @@ def execute(scenario, open_sigs):
                 tgt = inner[1] if len(inner) > 1 and isinstance(inner[1], str) else None
                 if tgt in W.objs:
                     check_unchanged(tgt)
+            elif op[0] == "stack":
+                _, extra, inner = op
+                depth = 0
+                fr = sys._getframe()
+                while fr is not None:
+                    depth += 1
+                    fr = fr.f_back
+                old_limit = sys.getrecursionlimit()
+                sys.setrecursionlimit(depth + 6 + extra)
+                try:
+                    ob = run_op(inner)
+                except RecursionError:
+                    ob = ["recursion"]
+                    faults["stack_exhaustion"] = faults.get("stack_exhaustion", 0) + 1
+                finally:
+                    sys.setrecursionlimit(old_limit)
+                tgt = inner[1] if isinstance(inner[1], str) and inner[0] != "lookup" else inner[2]
+                if tgt in W.objs:
+                    check_unchanged(tgt)
             elif op[0] == "threads":
                 from .sched import run_threads
                 ob = run_threads(op, W, run_op, viol, probes, faults, states)
@@ -900,7 +947,7 @@ def simplifications(scn):
                             nf = ["t", [x for x in f[1] if x is not s]]
                             nt = ["n", op[2][1], op[2][2][:j] + [nf] + op[2][2][j + 1:]]
                             yield {"config": cfg, "ops": ops[:i] + [["def", op[1], nt]] + ops[i + 1:]}
-        elif op[0] == "async":
+        elif op[0] in ("async", "stack"):
             yield {"config": cfg, "ops": ops[:i] + [op[2]] + ops[i + 1:]}
         elif op[0] == "threads":
             _, scripts, schedule, knobs = op
